@@ -317,3 +317,24 @@ func TestF15PushDeleteReachesDaemon(t *testing.T) {
 		t.Errorf("push --delete: got %v, want [keep]", got)
 	}
 }
+
+// F12: special files must get the source's permission bits under -p (umask must not leak in).
+func TestF12SpecialFilePerms(t *testing.T) {
+	tmp := t.TempDir()
+	src, dst := filepath.Join(tmp, "src"), filepath.Join(tmp, "dst")
+	os.MkdirAll(src, 0755)
+	old := syscall.Umask(0)
+	if err := syscall.Mkfifo(filepath.Join(src, "fifo"), 0666); err != nil {
+		t.Fatal(err)
+	}
+	syscall.Umask(0022)
+	defer syscall.Umask(old)
+	pull(t, src, dst)
+	st, err := os.Lstat(filepath.Join(dst, "fifo"))
+	if err != nil {
+		t.Fatal(err)
+	}
+	if got := st.Mode().Perm(); got != 0666 {
+		t.Errorf("fifo permissions = %o, want 666", got)
+	}
+}
